@@ -18,6 +18,19 @@ run over the *delivered event sequence*; monitors:
   single_end exactly one of tcp_end/tcp_error (udp_end/udp_error) fired once the connection handler is gone, with the
              kind the model expects (error iff the upstream connect failed)
   after_end  no SendData and no message hook after the end/error hook was started; no write after the layer's own close
+
+Real-handler leg (engine B, vf/tcphandler.py; every 4th worker): the same TCPLayer inside the real ProxyConnectionHandler on
+the virtual-time loop with in-memory sockets -- handle_connection (parked half-closed handlers), open_connection, hook tasks,
+drain_writers, the inactivity watchdog, close_connection and the teardown of handle_client are mitmproxy's own asyncio code.
+Plans: regular (next_layer -> TCPLayer) or reverse:tcp:// with eager/lazy connect; connect ok/refused/hanging/slow; both peers
+send timed data then EOF / reset / fall silent (half-closes from either side, data after the half-close); tcp_timeout 5 s or
+600 s; drain() errors on either socket; slow async tcp_start/tcp_message/tcp_end/tcp_error (and rarely server_* lifecycle)
+hooks; edits.  Monitors once the handler has returned and all tasks have drained:
+  handler.single_end  every flow that fired tcp_start fired exactly one of tcp_end / tcp_error, and no tcp_message after it
+  handler.no_crash    the handler logged nothing at level ERROR ("mitmproxy has crashed!", "connection handler has crashed")
+  handler.exact       per direction, what the peer's socket received is a prefix of the recorded (edited) message contents and
+                      the recorded original contents are a prefix of what the other peer sent; in clean plans (both peers end
+                      with EOF, nothing fails) both are equalities and the flow ends with tcp_end
 """
 from mitmproxy import tcp as mtcp, udp as mudp
 from mitmproxy.connection import ConnectionState
@@ -29,17 +42,22 @@ from vf.ref import c29_relay as ref
 
 PROPERTY = "C29"
 LEVEL = "fault_enumeration"
-ENGINE = "sansio"
+ENGINE = "sansio+vloop"
 BUDGET = {"quick": (2000, 18), "thorough": (60000, 200)}
 WORKERS = {"quick": 4, "thorough": 16}
-REQUIRED = ["source", "exact", "halfclose", "single_end", "after_end", "fault.open_failed", "fault.client_eof_first", "fault.server_eof_first", "fault.eof_during_pending_hook", "injected"]
-TECHNIQUE = "runtime monitoring: fault-plan sweep on the sans-io driver + reference relay model over the delivered event sequence"
+REQUIRED = [
+    "source", "exact", "halfclose", "single_end", "after_end", "fault.open_failed", "fault.client_eof_first", "fault.server_eof_first", "fault.eof_during_pending_hook", "injected",
+    "handler.cases", "handler.single_end", "handler.no_crash", "handler.exact", "handler.exact_clean", "handler.halfclose_then_timeout", "handler.halfclose_then_data", "handler.idle_timeout", "handler.drain_error", "handler.reset", "handler.slow_hook",
+]
+TECHNIQUE = "runtime monitoring: fault-plan sweep on the sans-io driver + reference relay model over the delivered event sequence; fault plans on the real ConnectionHandler under virtual time"
 RULE = (
     "case = protocol (tcp/udp) x fault plan [upstream connect: fails / ok / already connected; client EOF after k in 0..3 of its messages or "
     "never; server EOF after j in 0..3 or never] enumerated round-robin by case index, plus random tagged messages (0-4 per side), addon edit per "
     "message (keep/same-length/longer/shorter/empty), delayed hooks, 0-3 injections, random schedule; signature = (protocol, plan, edit kinds, "
     "#injected, #recorded class, which side's EOF was processed first, EOF-while-hook-pending, outcome hook); non-trivial iff a message was "
-    "relayed or a fault (EOF / connect failure) happened together with an edit, an injection or a second fault"
+    "relayed or a fault (EOF / connect failure) happened together with an edit, an injection or a second fault. Real-handler leg (every 4th "
+    "worker): case = random plan (mode, connect outcome, timed peer scripts ending in EOF/reset/silence, tcp_timeout, drain error, hook delays, "
+    "edits); signature = (mode, connect, endings, timeout, drain fault, which hooks were slow, hook-name sequence class); non-trivial iff tcp_start fired"
 )
 ASSUMPTIONS = [
     "a peer's full close and half close are both an EOF on the proxy's read side (what ConnectionHandler.handle_connection reports); the difference only shows in whether later writes are possible",
@@ -52,7 +70,10 @@ LEVEL_TEXT = (
     "with random message contents, edits, injections and schedules (so EOFs land before, during and after pending hooks); an independent sequential "
     "relay model over the delivered events decides what had to be recorded, sent, half-closed and which single end hook had to fire."
 )
-LEVEL_NOTE = "Trusted: vf/sansio.py's model of ConnectionHandler (state change at EOF, one ConnectionClosed per connection, teardown) and vf/ref/c29_relay.py."
+LEVEL_NOTE = (
+    "Trusted: vf/sansio.py's model of ConnectionHandler (state change at EOF, one ConnectionClosed per connection, teardown) and vf/ref/c29_relay.py; "
+    "for the real-handler leg vf/vloop.py (virtual-time loop, in-memory sockets) and vf/tcphandler.py -- there ConnectionHandler itself is the real code."
+)
 
 CLOSE_POS = [0, 1, 2, 3, None]
 OPEN = ["ok", "ok", "fail", "pre"]
@@ -353,7 +374,139 @@ def run_case(ctx, opts, index):
     return sig, nontrivial, sample
 
 
+def classify_handler(kind, info):
+    """Mechanisms for the real-handler leg, from the plan / recorded history only."""
+    if kind in ("handler:end-hooks-not-exactly-one", "handler:recorded-less-than-sent", "handler:peer-got-less-than-recorded") and info.get("lifecycle_hook_cancelled") and info.get("outcomes") == 0:
+        return "no-outcome-when-upstream-attempt-cancelled-inside-lifecycle-hook"
+    if kind == "handler:peer-got-less-than-recorded" and info.get("undelivered_all_pending_at_client_end"):
+        return "client-side-finished-while-tcp_message-hook-pending-teardown-drops-message"
+    if kind in ("handler:recorded-less-than-sent", "handler:peer-got-less-than-recorded") and info.get("eof_race"):
+        return "second-eof-arrives-while-first-eof-still-queued-behind-hook"
+    return None
+
+
+def run_handler(ctx):
+    from vf import tcphandler as th
+
+    for i in ctx.cases():
+        r = ctx.rng
+        plan = th.gen_plan(r)
+        try:
+            res = th.run_plan(plan)
+        except Exception as e:  # noqa
+            import traceback
+
+            ctx.violation("handler:harness-or-handler-exception", {"plan": plan, "exc": repr(e), "tb": traceback.format_exc()[-800:]})
+            ctx.case(("handler", "exception"), False)
+            continue
+        if res.deadlock:
+            ctx.count("handler.never_ended")  # silent peers and no timeout that would end the run: nothing to judge
+            ctx.case(("handler", "never-ended"), False)
+            continue
+        ctx.count("handler.cases")
+        names = res.names()
+        tcp = [h for h in res.hooks if h["name"] in th.TCP_HOOKS]
+        msgs = [h for h in tcp if h["name"] == "tcp_message"]
+        cancelled = sorted({h["name"] for h in res.hooks if h["cancelled"]})
+        life = [n for n in cancelled if n in ("server_connect", "server_connected", "server_connect_error")]
+        fed = res.fed
+        eof_t = {s: next((t for t, k, _ in fed[s] if k == "eof"), None) for s in "cs"}
+        # EOF of both peers (and data in between) delivered while one tcp hook was still being handled -> engine A's finding
+        eof_race = False
+        if eof_t["c"] is not None and eof_t["s"] is not None:
+            lo, hi = sorted((eof_t["c"], eof_t["s"]))
+            second = "c" if eof_t["c"] > eof_t["s"] else "s"
+            if any(h["t0"] <= lo and (h["t1"] is None or h["t1"] >= hi) for h in tcp if h["name"] in ("tcp_start", "tcp_message")) or (res.connected and not any(h["name"] == "tcp_start" and h["t1"] is not None and h["t1"] <= lo for h in tcp)):
+                eof_race = any(k == "data" and lo <= t <= hi for t, k, _ in fed[second])
+        started = [h for h in tcp if h["name"] == "tcp_start"]
+        ends = [h for h in tcp if h["name"] in ("tcp_end", "tcp_error")]
+        info = {"lifecycle_hook_cancelled": bool(life), "outcomes": len(ends), "eof_race": eof_race}
+        witness = {
+            "leg": "handler",
+            "plan": plan,
+            "hooks": [(round(h["t0"] - 1_000_000, 3), h["name"], "cancelled" if h["cancelled"] else "") for h in res.hooks][:50],
+            "fed": {s: [(round(t - 1_000_000, 3), k, p[:12]) for t, k, p in fed[s]] for s in "cs"},
+            "error_logs": [(round(t - 1_000_000, 3), m, tb[-300:]) for t, m, tb in res.error_logs][:3],
+            "closed_at": {k: round(v - 1_000_000, 3) for k, v in res.closed_at.items()},
+            "cancelled_hooks": cancelled,
+        }
+        # ---- no crash
+        ctx.count("handler.no_crash")
+        if res.error_logs:
+            ctx.violation("handler:error-logged:" + res.error_logs[0][1][:40], witness, classify_handler("handler:error-logged", info))
+        # ---- single end
+        if started:
+            ctx.count("handler.single_end")
+            if len(ends) != 1:
+                ctx.violation("handler:end-hooks-not-exactly-one", {**witness, "end": [h["name"] for h in ends]}, classify_handler("handler:end-hooks-not-exactly-one", info))
+            elif any(m["t0"] > ends[0]["t0"] for m in msgs):
+                ctx.violation("handler:message-hook-after-end-hook", witness)
+            elif plan["clean"] and ends[0]["name"] != "tcp_end":
+                ctx.violation("handler:clean-plan-ended-with-error", witness)
+        # ---- exactness per direction
+        t_client_end = next((h["t0"] for h in res.hooks if h["name"] == "client_disconnected"), None)
+        clean = plan["clean"]
+        if clean and started and t_client_end is not None and started[0]["t0"] >= t_client_end - 1e-3:
+            # the client had half-closed without sending anything and NextLayer gave up on it before the TCP flow existed
+            clean = False
+            ctx.count("handler.flow_started_after_client_left")
+        if started:
+            ctx.count("handler.exact")
+            if clean:
+                ctx.count("handler.exact_clean")
+            for side, got, other in (("c", res.server_got, "s"), ("s", res.client_got, "c")):
+                sent = [p for _, k, p in fed[side] if k == "data"]
+                pre = [m["pre"] for m in msgs if m["from_client"] == (side == "c")]
+                post = b"".join(m.get("post", m["pre"]) for m in msgs if m["from_client"] == (side == "c"))
+                if pre != sent[: len(pre)]:
+                    ctx.violation("handler:recorded-differs-from-sent", {**witness, "from": side, "sent": [x[:12] for x in sent], "recorded": [x[:12] for x in pre]})
+                elif clean and len(pre) != len(sent):
+                    ctx.violation("handler:recorded-less-than-sent", {**witness, "from": side, "sent": len(sent), "recorded": len(pre)}, classify_handler("handler:recorded-less-than-sent", info))
+                if not post.startswith(got):
+                    ctx.violation("handler:peer-got-bytes-not-recorded", {**witness, "to": other, "peer_got": got[:80], "recorded": post[:80]})
+                elif clean and got != post:
+                    # which recorded messages did not arrive, and was each of them still inside its hook when the client side of
+                    # the connection was finished (client read EOF after its write half had been closed -> handle_client tears
+                    # everything down without waiting for pending hooks)?
+                    mine = [m for m in msgs if m["from_client"] == (side == "c")]
+                    acc, undelivered = 0, []
+                    for m in mine:
+                        acc += len(m.get("post", m["pre"]))
+                        if acc > len(got):
+                            undelivered.append(m)
+                    # (messages are handled one after the other: if the first undelivered one left its hook only after the client
+                    # side was finished, so did all later ones)
+                    info["undelivered_all_pending_at_client_end"] = bool(undelivered) and t_client_end is not None and (undelivered[0]["t1"] or 1e18) >= t_client_end - 1e-3
+                    ctx.violation("handler:peer-got-less-than-recorded", {**witness, "to": other, "peer_got": len(got), "recorded": len(post)}, classify_handler("handler:peer-got-less-than-recorded", info))
+        # ---- evidence
+        first_eof = min((s for s in "cs" if eof_t[s] is not None), key=lambda s: eof_t[s], default=None)
+        idle_timeout = plan["tcp_timeout"] == 5 and "timeout" not in ("",) and (plan["client_end"] == "silent" or plan["origin_end"] == "silent")
+        if first_eof and started and idle_timeout and (plan["client_end"] == "silent" or plan["origin_end"] == "silent"):
+            ctx.count("handler.halfclose_then_timeout")
+        if first_eof and any(k == "data" and t > eof_t[first_eof] for t, k, _ in fed[ref.OTHER[first_eof]]):
+            ctx.count("handler.halfclose_then_data")
+        if idle_timeout and started:
+            ctx.count("handler.idle_timeout")
+        if res.drain_errors:
+            ctx.count("handler.drain_error")
+        if any(k == "reset" for s in "cs" for _, k, _ in fed[s]):
+            ctx.count("handler.reset")
+        slow = sorted({h["name"] for h in tcp if h["t1"] is not None and h["t1"] - h["t0"] > 0.1})
+        if slow:
+            ctx.count("handler.slow_hook")
+        for n in cancelled:
+            ctx.count("handler.hook_cancelled." + n)
+        if eof_race:
+            ctx.count("handler.eof_race")
+        seq = tuple(n for n in names if n.startswith("tcp_"))
+        sig = ("handler", plan["mode"], plan["connection_strategy"], plan["connect"], plan["client_end"], plan["origin_end"], plan["tcp_timeout"], bool(plan["drain_fault"]), tuple(slow), tuple(cancelled), (seq[:1], len(seq), seq[-1:]))
+        ctx.seen("handler_hook_sequences", ",".join(names)[:300])
+        ctx.case(sig, bool(started), {"leg": "handler", "plan": {k: plan[k] for k in ("mode", "connect", "client", "origin", "tcp_timeout", "drain_fault")}, "hooks": names})
+
+
 def run(ctx):
+    if ctx.worker % 4 == 3:
+        return run_handler(ctx)
     tctx, _ = sansio.addon_context()
     opts = tctx.options
     for i in ctx.cases():
